@@ -155,6 +155,9 @@ func C16(c *Ctx) error {
 		if strings.HasPrefix(shapeKey, "random#") {
 			shapeKey = "random"
 		}
+		if strings.HasPrefix(shapeKey, "odd_braces_in_path#") {
+			shapeKey = "odd_braces_in_path"
+		}
 		if strings.HasPrefix(shapeKey, "refused:") {
 			shapeKey = shapeKey[:strings.LastIndex(shapeKey, "#")]
 		}
